@@ -50,6 +50,7 @@ objsim.INPLACE_KINDS.add("h_set")
 objsim.LAYOUT_PROP["h_set"] = "C18"
 objsim.OWN_OPS["C18"] = ("h_construct", "h_set", "h_copy", "h_move")
 objsim.OWN_OPS["C19"] = ("h_dict", "json_rebuild")
+objsim.OWN_OPS["C20"] = ("restart", "h_restart")
 
 
 # ------------------------------------------------------------------------------
@@ -277,10 +278,10 @@ class HGenSource(GenSource):
         return [o for o in w.live_objs() if getattr(o, "dressed", None) is not None]
 
     def next(self, w):
-        if self.n < self.sw["steps"] and not self.hlive(w):
-            self.n += 1
+        if self.n < self.sw["steps"] and not self.hlive(w) and hybrid_types(w.schema):
             op = self.h_construct(w)
             if op is not None:
+                self.n += 1
                 return op
         return super().next(w)
 
@@ -989,6 +990,6 @@ class HybridSim(ObjSim):
     }
 
     def gen_world(self, rng, profile, tier):
-        if profile == "json":
-            return objsim.gen_world(rng, profile, tier)
+        if not profile.startswith("hybrid"):
+            return objsim.gen_world(rng, profile, tier)  # plain ObjSim world (json / restart profiles)
         return gen_world(rng, profile, tier)
